@@ -17,3 +17,7 @@ vmod!(types, "types.rs");
 vmod!(rbench, "rbench.rs");
 vmod!(wbench, "wbench.rs");
 vmod!(codec, "codec.rs");
+
+// drivers that need the DDS Security plugins (only in the `security` build: vcheck-sec)
+#[cfg(feature = "security")]
+vmod!(sec, "sec.rs");
